@@ -65,12 +65,31 @@ pub mod fastnbt {
 }
 pub mod serde_json {
     use vstd::prelude::*;
+    use vstd::utf8::*;
     use super::JsonError;
     pub struct Value {}
+    /// serde `Serialize` / `Deserialize` through serde_json: uninterpreted text per value, partial parser per type
+    pub trait JsonSer { spec fn json_text(&self) -> Seq<char>; }
+    pub trait JsonDe: Sized { spec fn json_parse(b: Seq<u8>) -> Result<Self, JsonError>; }
     #[verifier::external_body]
-    pub fn to_string(v: &super::fastnbt::Value) -> Result<String, JsonError> { unimplemented!() }
+    pub fn to_string<T: JsonSer>(v: &T) -> (r: Result<String, JsonError>)
+        ensures r matches Ok(s) ==> s@ == v.json_text()
+    { unimplemented!() }
+    /// (a Vec never exceeds isize::MAX bytes)
+    #[verifier::external_body]
+    pub fn to_vec<T: JsonSer>(v: &T) -> (r: Result<Vec<u8>, JsonError>)
+        ensures r matches Ok(b) ==> b@ == encode_utf8(v.json_text()) && b@.len() + 32 <= usize::MAX
+    { unimplemented!() }
+    #[verifier::external_body]
+    pub fn from_slice<T: JsonDe>(b: &[u8]) -> (r: Result<T, JsonError>)
+        ensures r == T::json_parse(b@)
+    { unimplemented!() }
     #[verifier::external_body]
     pub fn from_str(s: &str) -> Result<Value, JsonError> { unimplemented!() }
+    pub uninterp spec fn nbt_json_text(v: super::fastnbt::Value) -> Seq<char>;
+    impl JsonSer for super::fastnbt::Value { open spec fn json_text(&self) -> Seq<char> { nbt_json_text(*self) } }
+    pub uninterp spec fn opt_parse<T: JsonDe>(b: Seq<u8>) -> Result<Option<T>, JsonError>;
+    impl<T: JsonDe> JsonDe for Option<T> { open spec fn json_parse(b: Seq<u8>) -> Result<Option<T>, JsonError> { opt_parse::<T>(b) } }
 }
 
 // ------------------------------------------------------------------ allocation budget (C04)
